@@ -11,6 +11,8 @@
 //   C04 cs <vlist> <vlist> a order | <vlist>     IncrementalPruning::crossSum (private; -fno-access-control)
 //   C04 pj <pomdp> <vlist w> a | O <vlist>*O      Projecter::operator()(w, a)
 //   C04 cb S <belief> a O <vlist>*O | <entry> value     crossSumBestAtBelief(b, row, a, &value)
+//   C04 wv <pomdp> <vlist w> a <entry> | nAgenda <vec>* nTried <obs>*    Witness::addDefaultEntry + addVariations
+//   C04 perseus <pomdp> nB <belief>* v0 h | <vf>        PERSEUS run with its (reproduced) belief list vs perseusRun
 //   C04 pbvi <pomdp> nB <belief>* h | <vf>              PBVI(nB, h, 0)(model, beliefs): whole run vs the Lean model pbviRun
 #include "common/verif.hpp"
 #include "common/gen.hpp"
@@ -26,6 +28,7 @@
 #include <AIToolbox/POMDP/Algorithms/PERSEUS.hpp>
 #include <AIToolbox/POMDP/Algorithms/QMDP.hpp>
 #include <AIToolbox/POMDP/SparseModel.hpp>
+#include <AIToolbox/POMDP/Algorithms/Utils/BeliefGenerator.hpp>
 #include <AIToolbox/MDP/SparseModel.hpp>
 
 using namespace verif;
@@ -252,6 +255,58 @@ static void emitPJ(Rng & rng) {
     l << "|"; putEntry(l, e); l << value; l.emit();
 }
 
+// Witness::addDefaultEntry + addVariations (private; -fno-access-control) on the real Projecter row
+static void emitWV(Rng & rng) {
+    size_t S = 2 + rng.below(2), A = 1 + rng.below(2), O = 1 + rng.below(3);
+    auto pt = randomPomdp(rng, S, A, O);
+    Model model = toDense(pt);
+    size_t n = 1 + rng.below(3);
+    P::VList w;
+    for (size_t i = 0; i < n; ++i) {
+        P::VEntry e; e.values.resize(S);
+        for (size_t s = 0; s < S; ++s) e.values[s] = (double)rng.range(-16, 16) / 4.0;
+        e.action = rng.below(A); e.observations.assign(O, 0);
+        w.push_back(e);
+    }
+    size_t a = rng.below(A);
+    P::Projecter<Model> proj(model);
+    auto row = proj(w, a);
+    P::Witness wt(1, 0.0);
+    wt.S = S; wt.A = A; wt.O = O;
+    wt.agenda_.clear(); wt.triedVectors_.clear();
+    wt.addDefaultEntry(row);
+    auto b = dyadicBelief(rng, S);
+    auto e = P::crossSumBestAtBelief(b, row, a);
+    wt.addVariations(row, e);
+    std::vector<P::VObs> tried(wt.triedVectors_.begin(), wt.triedVectors_.end());
+    std::sort(tried.begin(), tried.end());
+    Line l; l << "C04" << "wv"; putPomdp(l, pt); putVList(l, w); l << a; putEntry(l, e); l << "|";
+    l << (size_t)wt.agenda_.size(); for (const auto & v : wt.agenda_) putVector(l, v);
+    l << (size_t)tried.size(); for (const auto & t : tried) l.nats(t);
+    l.emit();
+}
+
+// PERSEUS draws its beliefs from a BeliefGenerator seeded by the global Seeder: re-seeding reproduces the same list, so the
+// whole run can be compared with the Lean model `perseusRun`
+static void emitPERSEUS(Rng & rng) {
+    size_t S = 2 + rng.below(3), A = 1 + rng.below(3), O = rng.coin() ? 2 : 1;
+    unsigned h = 1 + (unsigned)rng.below(3);
+    auto pt = randomPomdp(rng, S, A, O);
+    Model model = toDense(pt);
+    unsigned seed = (unsigned)rng.below(1u << 30);
+    size_t nB = S + 1 + rng.below(5);
+    AIToolbox::Seeder::setRootSeed(seed);
+    P::PERSEUS solver(nB, h, 0.0);
+    auto vf = std::get<1>(solver(model, pt.R.minCoeff()));
+    AIToolbox::Seeder::setRootSeed(seed);
+    (void)AIToolbox::Seeder::getSeed();                  // the seed PERSEUS's own engine took
+    P::BeliefGenerator<Model> gen(model);                // takes the seed PERSEUS's internal generator took
+    auto bl = gen(nB);
+    Line l; l << "C04" << "perseus"; putPomdp(l, pt); l << (size_t)bl.size();
+    for (const auto & b : bl) putVector(l, b);
+    l << (double)vf[0][0].values[0] << h << "|"; putVF(l, vf); l.emit();
+}
+
 // PBVI with an explicit belief list is deterministic and LP-free: the whole run is compared with the Lean model `pbviRun`
 static void emitPBVI(Rng & rng) {
     size_t S = 2 + rng.below(3), A = 1 + rng.below(3), O = rng.coin() ? 2 : (rng.coin() ? 1 : 4);
@@ -277,7 +332,7 @@ void verif::verif_case(Rng & rng, long idx, const std::string & tier) {
     if (idx == 1) { runSolver(rng, 5, witnessQmdp(), 1); return; }           // QMDP with VI horizon 1 IS a one-step plan
     if (idx >= 2 && idx < 7) { runSolver(rng, (int)idx - 2, tigerTables(), 3); return; }
     if (idx == 7) { runSolver(rng, 0, tigerTables(), 4); return; }
-    if (idx >= 8 && idx < kFixed) { for (int k = 0; k < 12; ++k) { emitXD(rng); emitPR(rng); emitCS(rng); emitPJ(rng); emitPBVI(rng); } return; }
+    if (idx >= 8 && idx < kFixed) { for (int k = 0; k < 12; ++k) { emitXD(rng); emitPR(rng); emitCS(rng); emitPJ(rng); emitPBVI(rng); emitWV(rng); emitPERSEUS(rng); } return; }
     long r = idx - kFixed;
     int which = (int)(r % 6);
     size_t S = 2 + rng.below(3), A = 1 + rng.below(3), O = 1 + rng.below(3);
@@ -292,7 +347,7 @@ void verif::verif_case(Rng & rng, long idx, const std::string & tier) {
     double tol = (rng.coin(1, 8)) ? 0.5 : 0.0;                                // early stop on tolerance: shorter value function
     if (std::getenv("VERIF_DEBUG")) std::fprintf(stderr, "case %ld: %s S=%zu A=%zu O=%zu h=%u ugly=%d sparse=%d tol=%g\n", idx, kSolvers[which], S, A, O, h, (int)ugly, (int)sparse, tol);
     runSolver(rng, which, pt, h, tol, sparse);
-    if (r % 10 == 0) { emitXD(rng); emitPR(rng); emitCS(rng); emitPJ(rng); emitPBVI(rng); }
+    if (r % 10 == 0) { emitXD(rng); emitPR(rng); emitCS(rng); emitPJ(rng); emitPBVI(rng); emitWV(rng); emitPERSEUS(rng); }
 }
 
 VERIF_MAIN
